@@ -14,8 +14,8 @@ mode ext (as drain, and the context is cancelled from inside the `at`-th file op
   count is not determined, but never more than `min(cap, M)`, still in order, `Run` returns nil or Canceled, the
   sink is closed; `nil` from a provider that answers a cancel with Canceled means that the bound was reached.
 mode stall (consumers make exactly `cap` Acquire calls and then stop; then the context is cancelled unless `Run`
-  has returned by itself): exactly `min(cap, M)` acquired; `Run` returns; the sink is closed and holds at most the
-  channel capacity, never more than `M` in total; a provider whose remaining ammo fit into the channel returns
+  has returned by itself): exactly `min(cap, M)` acquired; `Run` returns; the sink is closed; acquired + left in the
+  sink never exceed `M` (that no more than the channel capacity is left is part of the model's prediction, not of the Spec); a provider whose remaining ammo fit into the channel returns
   by itself (bound reached ⇒ returns promptly) having sent exactly `M`.
 mode engine (real core/engine, `inst` instances, shared `once(shots)` schedule, `shots = 0` = unlimited):
   `Engine.Run` returns nil, exactly `min⁺(M, shots)` shots were made, `Engine.Wait` returns.
@@ -62,9 +62,11 @@ def expected (limit passes n : Nat) : Option Nat :=
   | 0, p => some (p * n)
   | l, p => some (min l (p * n))
 
-/-- Read+Seek calls that `sent` ammo of an `n`-entry file may cost: per pass one read per 512 bytes (the smallest
-buffer the decoders use) plus the end-of-file read, the seek and slack; three passes of slack; the constructor's reads -/
-def opsBound (sent n pad : Nat) : Nat := (sent / n + 3) * ((n * (pad + 256)) / 512 + 4) + 8
+/-- Read+Seek calls that `sent` ammo of an `n`-entry file may cost: up to three per ammo and per entry of one more
+pass (the raw decoder asks for the file position of every entry; preload reads the whole file whatever the limit),
+per pass one read per 512 bytes (the smallest buffer the decoders use) plus the
+end-of-file read, the seek and slack; three passes of slack; the constructor's reads -/
+def opsBound (sent n pad : Nat) : Nat := 3 * (sent + n) + (sent / n + 3) * ((n * (pad + 256)) / 512 + 4) + 8
 
 /-- what a drain cell has to deliver: `min(cap, M)`, `cap = 0` = nobody cancels (such a cell must be bounded) -/
 def want (c : Cell) : Nat :=
@@ -159,7 +161,7 @@ def selfEnding (c : Cell) (chanCap : Nat) : Bool :=
   | none => false
 
 def stallHolds (c : Cell) (chanCap : Nat) (o : StallObs) : Bool :=
-  o.delivered == stallWant c && o.seqOk && o.ret && o.end_ == .closed && decide (o.left ≤ chanCap) &&
+  o.delivered == stallWant c && o.seqOk && o.ret && o.end_ == .closed &&
   (match expected c.limit c.passes c.n with
    | some m => decide (o.delivered + o.left ≤ m)
    | none => true) &&
@@ -172,7 +174,6 @@ def stallJudge (c : Cell) (chanCap : Nat) (o : StallObs) : String :=
   else if o.end_ == .blocked then "fail:sink-open:consumers stay blocked in Acquire although the provider has nothing more to deliver"
   else if !o.ret then "fail:hang:Run does not return after the cancel (nobody receives)"
   else if o.end_ != .closed then "fail:sink-open:Run returned but the sink is not closed"
-  else if !decide (o.left ≤ chanCap) then s!"fail:count:{o.left} ammo left in the sink, channel capacity {chanCap}"
   else if !(match expected c.limit c.passes c.n with | some m => decide (o.delivered + o.left ≤ m) | none => true) then
     s!"fail:count:{o.delivered} delivered + {o.left} left in the sink exceed the bound"
   else if o.cut && !(o.run == .nil || o.run == .canceled) then s!"fail:run-error:Run returned {o.run.name}"
